@@ -64,9 +64,9 @@ def run(ev, vd):
     with open(tr) as f:
         for i, line in enumerate(f):
             r = json.loads(line)
-            key = "%s/%s/%s" % (r["k"], r.get("kind", "-"), r.get("mode", "-"))
+            key = "%s/%s/%s" % (r.get("k", "crash"), r.get("kind", "-"), r.get("mode", "-"))
             kinds[key] = kinds.get(key, 0) + 1
-            nt = (r.get("threads", 0) >= 2 and r.get("n", 0) >= 2) or (r["k"] == "regions" and len(r["seq"]) >= 2)
+            nt = (r.get("threads", 0) >= 2 and r.get("n", 0) >= 2) or (r.get("k") == "regions" and len(r["seq"]) >= 2)
             ev.distinct(line, nontrivial=nt)
             misplaced += 1 if r.get("misplaced", 0) else 0
             if i % 211 == 5:
@@ -79,8 +79,8 @@ def run(ev, vd):
     bad = tv.read_lines(tr, [g for g, _ in res["rejects"]])
     for g, info in sorted(res["rejects"]):
         r = json.loads(bad[g])
-        sig = dict(component=r["k"] + ":" + r.get("kind", ""), op="steal" if r.get("steal") else "nosteal")
-        vd.violation(sig, "%s deviates from DoAllAbs: %s" % (r["k"], bad[g][:400]), dict(record=r))
+        sig = dict(component=r.get("k", "crash") + ":" + r.get("kind", ""), op="steal" if r.get("steal") else "nosteal")
+        vd.violation(sig, "%s deviates from DoAllAbs: %s" % (r.get("k", "harness died: record"), bad[g][:400]), dict(record=r))
     ev.assumptions += ["which thread runs which element is not part of the property (reported as drift for the no-steal case)",
                        "termination of do_all's steal loop (theoretical ping-pong livelock) is not claimed; hangs are detected on the real code"]
     ev.cov["engines"] = ["mc", "ctl", "free", "tv"]
